@@ -94,7 +94,11 @@ Inductive expr :=
 | EUValue (a : expr)                      (* a.value() *)
 | ECustomNew (ty : string) (a : expr)     (* ty::new_with_raw_value(a) *)
 | ECustomRaw (a : expr)                   (* a.raw_value() on a user type *)
-| EUnsupported (tokens : string).
+| EUnsupported (tokens : string)
+| EWrapBin (op : binop) (a b : expr)      (* a.wrapping_shl(b), wrapping_shr, wrapping_add, wrapping_sub, wrapping_mul:
+                                             the operator with overflow checks off, whatever the profile *)
+| EDebugAssert (c body : expr).           (* debug_assert!(c); body — the condition is evaluated only when debug
+                                             assertions are on (they are in the checked profile) *)
 
 (** ** Semantics *)
 
@@ -248,5 +252,11 @@ Fixpoint eval (ρ : env) (e : expr) : res value :=
   | ECustomNew ty a => bind (eval ρ a) (fun v => Ok (VCustom ty v))
   | ECustomRaw a => bind (eval ρ a) (fun v => match v with VCustom _ r => Ok r | _ => Stuck end)
   | EUnsupported _ => Stuck
+  | EWrapBin op a b => bind (eval ρ a) (fun x => bind (eval ρ b) (fun y => binop_eval false op x y))
+  | EDebugAssert c body =>
+      if checked then
+        bind (eval ρ c) (fun x =>
+          match x with VBool true => eval ρ body | VBool false => Panic | _ => Stuck end)
+      else eval ρ body
   end.
 End Eval.
